@@ -41,7 +41,7 @@ if not wt.exists():
 subprocess.check_call(["git", "-C", str(wt), "checkout", "-q", "-f", "--detach", head])
 subprocess.check_call(["git", "-C", str(wt), "clean", "-qfd"])
 env = dict(os.environ, PYTHONPATH=f"{wt}/src", PYTHONDONTWRITEBYTECODE="1")
-demo = (dst / "demo.py").read_text().replace(f"/tmp/seed-{a.pid}", str(wt))
+demo = (dst / "demo.py").read_text().replace(str(src)[: -len("-out")] if str(src).endswith("-out") else f"/tmp/seed-{a.pid}", str(wt))
 (wt / "_demo.py").write_text(demo)
 def run_demo():
     r = subprocess.run(["/venv/bin/python", "_demo.py"], cwd=wt, env=env, capture_output=True, text=True, timeout=1800)
